@@ -285,3 +285,150 @@ def gen_response(tape, method='GET', allow_truncate=False, allow_surplus=True, a
                    'truncate_at': r.truncate_at, 'truncate_kind': r.truncate_kind, 'close_after': r.close_after,
                    'head_len': len(r.head), 'wire_len': total})
     return r
+
+
+# ---------------------------------------------------------------------------------------------
+# hostile-peer generators (C09): grammar-aware mutations of valid traffic and raw random bytes
+LONG = 70000          # longer than asyncio.StreamReader's 64 KiB line limit
+
+
+def mutate_message(tape, resp):
+    """Returns (wire bytes, description). The message is resp.message with one or two grammar-aware mutations."""
+    rng = tape.subrng('mut.rng')
+    head_lines = resp.head.split(b'\r\n')
+    body = resp.body_wire
+    desc = []
+    for _ in range(tape.between(1, 2, 'mut.n')):
+        k = tape.draw(24, 'mut.kind')
+        if k == 0 and len(head_lines) > 3:
+            i = 1 + tape.draw(len(head_lines) - 3, 'mut.i')
+            desc.append('delete-header:%r' % head_lines[i][:20])
+            del head_lines[i]
+        elif k == 1 and len(head_lines) > 3:
+            i = 1 + tape.draw(len(head_lines) - 3, 'mut.i')
+            head_lines.insert(i, head_lines[i])
+            desc.append('duplicate-header')
+        elif k == 2:
+            v = tape.choice((b'99999999999999999999999', b'-5', b'0x10', b'abc', b'', b'1e3', b'12 34', b'\xff\xfe'), 'mut.cl')
+            head_lines = [ln for ln in head_lines if not ln.lower().startswith(b'content-length')]
+            head_lines.insert(1, b'Content-Length: ' + v)
+            desc.append('content-length:%r' % v)
+        elif k == 3:
+            head_lines[0] = tape.choice((b'', b'HTTP/1.1', b'HTTP/1.1 abc OK', b'HTTP/9.9 200 OK', b'ICY 200 OK', b'\x00\x01\x02', b'HTTP/1.1 2000 OK',
+                                         b'HTTP/1.1 -1 X', b'<html>'), 'mut.status')
+            desc.append('status-line:%r' % head_lines[0])
+        elif k == 4:
+            head_lines[0] = b'HTTP/1.1 200 ' + b'A' * LONG
+            desc.append('status-line-long')
+        elif k == 5:
+            head_lines.insert(1, b'X-Long: ' + b'B' * LONG)
+            desc.append('header-line-long')
+        elif k == 6:
+            head_lines.insert(1, tape.choice((b'NoColonHere', b': empty name', b'Bad Name: x', b'X-Nul: a\x00b', b'X-Bare-CR: a\rb', b'X-8bit: \xff\xfe\x80',
+                                              b' leading space: x', b'\tfolded-first'), 'mut.hdr'))
+            desc.append('odd-header')
+        elif k == 7 and resp.framing == 'chunked':
+            v = tape.choice((b'zz', b'-1', b'ffffffffffffffffffff', b'', b'1;' + b'e' * LONG, b'G', b'0x5', b' 5'), 'mut.chunksize')
+            body = v + b'\r\n' + body
+            desc.append('chunk-size:%r' % v[:20])
+        elif k == 8 and resp.framing == 'chunked':
+            # chunk terminator replaced by a very long line without newline
+            i = body.find(b'\r\n')
+            body = body[:i + 2] + b'C' * LONG
+            desc.append('chunk-body-long-no-terminator')
+        elif k == 9 and resp.framing == 'chunked':
+            body = body[:-2] + b'X-Trailer: ' + b'T' * LONG + b'\r\n\r\n'
+            desc.append('trailer-long')
+        elif k == 10 and resp.framing == 'chunked':
+            j = body.rfind(b'0')
+            body = body[:j] + b'5\r\nab'            # chunk shorter than announced, then EOF
+            desc.append('chunk-short')
+        elif k == 11:
+            head_lines = [ln for ln in head_lines if not ln.lower().startswith(b'content-encoding')]
+            head_lines.insert(1, b'Content-Encoding: ' + tape.choice((b'gzip', b'deflate'), 'mut.ce'))
+            desc.append('wrong-content-encoding')
+        elif k == 12 and body:
+            j = rng.randrange(len(body))
+            body = body[:j] + bytes([rng.randrange(256)]) + body[j + 1:]
+            desc.append('body-byte-flip')
+        elif k == 13:
+            head_lines.insert(1, b'Transfer-Encoding: ' + tape.choice((b'chunked', b'gzip', b'chunked, chunked', b'identity', b'\xff'), 'mut.te'))
+            desc.append('transfer-encoding')
+        elif k == 14:
+            n = tape.choice((1, 7, 100, 5000), 'mut.rawlen')
+            return bytes(rng.randrange(256) for _ in range(n)), ['raw-random-bytes:%d' % n]
+        elif k == 15:
+            head_lines = [head_lines[0]] + [b'X-%d: v' % i for i in range(1500)] + head_lines[1:]
+            desc.append('many-headers(>32KiB)')
+        elif k == 16:
+            head_lines.insert(1, b'Location: ' + tape.choice((b'http://[bad', b'//', b'http://\x00/', b'\xff\xfe', b'http://a.test:99999/', b'javascript:alert(1)',
+                                                              b'http://' + b'h' * 300 + b'.test/', b'http://a.test/' + b'p' * LONG), 'mut.loc'))
+            if head_lines[0].startswith(b'HTTP/1.1 200'):
+                head_lines[0] = b'HTTP/1.1 302 Found'
+            desc.append('odd-location')
+        elif k == 17:
+            head_lines.insert(1, b'Set-Cookie: ' + tape.choice((b'a=b; Domain=..; Path=\x00', b'=; =;', b'a' * 5000 + b'=b', b'\xff=\xfe', b'a=b; Expires=garbage; Max-Age=xyz',
+                                                                b'a=b; Domain=' + b'd' * 300), 'mut.cookie'))
+            desc.append('odd-set-cookie')
+        elif k == 18:
+            head_lines.insert(1, b'Content-Type: ' + tape.choice((b'text/html; charset=\xff', b'text/html; charset=nonexistent-codec', b';;;', b'text/html; charset="',
+                                                                  b'text/html; charset=utf-16', b'text/html; charset=undefined'), 'mut.ctype'))
+            desc.append('odd-content-type')
+        elif k == 19:
+            head_lines.insert(1, b'Refresh: ' + tape.choice((b'0; url=http://[bad', b'garbage', b'0;url=', b'999999999999999999999;url=/x', b'0; url=\xff\xfe'), 'mut.refresh'))
+            desc.append('odd-refresh')
+        elif k == 20:
+            head_lines.insert(1, b'Content-Disposition: ' + tape.choice((b'attachment; filename="../../etc/passwd"', b'attachment; filename=\x00', b'attachment; filename*=UTF-8\'\'%ff%fe',
+                                                                         b'attachment; filename=' + b'f' * 400), 'mut.cd'))
+            desc.append('odd-content-disposition')
+        elif k == 21:
+            head_lines.insert(1, b'WWW-Authenticate: ' + tape.choice((b'Basic', b'Digest \xff', b'', b'Basic realm="' + b'r' * 3000), 'mut.auth'))
+            if tape.chance(1, 2, 'mut.401'):
+                head_lines[0] = b'HTTP/1.1 401 Unauthorized'
+            desc.append('odd-www-authenticate')
+        elif k == 22:
+            head_lines.insert(1, b'Last-Modified: ' + tape.choice((b'garbage', b'Mon, 99 Foo 99999 99:99:99 GMT', b'\xff', b'0'), 'mut.lm'))
+            desc.append('odd-last-modified')
+        else:
+            cut = rng.randrange(1, max(2, len(resp.message)))
+            return resp.message[:cut], ['truncated@%d' % cut]
+    return b'\r\n'.join(head_lines) + body, desc
+
+
+HOSTILE_HTML = [
+    b'<html><a href="http://[bad">x</a><a href="http://a.test:99999/">y</a><img src="//"><a href="\x00">z</a></html>',
+    b'<html><head><base href="http://[::1"><meta http-equiv="refresh" content="0;url=http://[x"></head><body><a href="rel">r</a></body></html>',
+    b'<a href="' + b'A' * 70000 + b'">long</a>',
+    b'<' * 5000,
+    b'<html>' + b'<div>' * 3000 + b'deep',
+    b'\xff\xfe<\x00h\x00t\x00m\x00l\x00>\x00',
+    b'<html><a href="&#xD800;&#xDFFF;&#1114112;">surrogates</a><a href="http://\xe2\x98\x83.\xff/">idn</a></html>',
+    b'<html><script>var u = "http://[bad/" + "\\x"; location="http:///"; url("x"</script><style>@import url(http://[bad);a{background:url(\'\\0\')}</style></html>',
+    b'<html><a href="http://a.test/%">pct</a><a href="http://a.test/%zz%">pct2</a><a href="mailto:x">m</a><a href="http://user:pa:ss@@a.test/">ui</a></html>',
+    b'<html><meta charset="utf-7"><meta charset="undefined"><a href="+ADw-script+AD4-">x</a></html>',
+    b'<html><form action="http://[bad"><input name="\x00"></form><frame src="ht\ttp://a.test/"><iframe src=" http://a.test/ \n"></iframe></html>',
+    b'<?xml version="1.0" encoding="bogus"?><html xmlns="x"><a href="]]>"/></html>',
+    b'<html><a href="http://a.test/\r\nInjected: header">crlf</a><img srcset="a 1x, http://[bad 2x,, ,"></html>',
+]
+HOSTILE_CSS = [b'@import url(http://[bad); a { background: url( }', b'\xff\xfe@\x00i\x00', b'url(' * 10000, b'a{background:url("' + b'x' * 70000 + b'")}',
+               b'@charset "bogus"; @import "\\110000";', b'/*' * 5000]
+HOSTILE_JS = [b'var a = "http://[bad/"; var b = "//"; var c = "http://a.test:99999/x.html";', b'"' * 9999, b'"http://' + b'a' * 70000 + b'"',
+              b'\xff\xfe"\x00h\x00', b'var x = "\\u{110000} \\xZZ http://a.test/\\";', b'{"url":"http:\\/\\/[bad\\/", "a":"\\ud800"}']
+HOSTILE_SITEMAP = [b'<?xml version="1.0"?><urlset><url><loc>http://[bad</loc></url><url><loc>\x00</loc></url></urlset>',
+                   b'<?xml version="1.0" encoding="bogus"?><urlset>', b'<urlset>' + b'<url><loc>' * 3000, b'\x1f\x8b\x08\x00garbage-not-gzip',
+                   b'<?xml version="1.0"?><!DOCTYPE x [<!ENTITY a "&a;&a;">]><urlset><url><loc>&a;</loc></url></urlset>',
+                   b'<sitemapindex><sitemap><loc>http://a.test:99999/s.xml</loc></sitemap></sitemapindex>']
+HOSTILE_ROBOTS = [b'\xff\xfe\x00', b'User-agent: *\nDisallow: /\xff\nAllow: \x00', b'User-agent' * 20000, b'Disallow: /' + b'x' * 70000,
+                  b'User-agent: *\r\nCrawl-delay: abc\r\nSitemap: http://[bad\r\nDisallow: *?*$$', b'<html>not robots</html>', b'User-agent: \nDisallow\n:\n']
+
+
+def hostile_document(tape, kind):
+    pool = {'html': HOSTILE_HTML, 'css': HOSTILE_CSS, 'js': HOSTILE_JS, 'sitemap': HOSTILE_SITEMAP, 'robots': HOSTILE_ROBOTS}[kind]
+    doc = pool[tape.draw(len(pool), 'hostile.doc')]
+    if tape.chance(1, 3, 'hostile.flip') and doc:
+        rng = tape.subrng('hostile.rng')
+        b = bytearray(doc)
+        for _ in range(1 + rng.randrange(6)):
+            b[rng.randrange(len(b))] = rng.randrange(256)
+        doc = bytes(b)
+    return doc
